@@ -306,7 +306,7 @@ void mmd_export_link_html(DString * out, const char * source, token * text, link
 		print_const(" ");
 		print(a->key);
 		print_const("=\"");
-		print(a->value);
+		mmd_print_string_html(out, a->value, false, false);
 		print_const("\"");
 		a = a->next;
 	}
@@ -400,7 +400,7 @@ void mmd_export_image_html(DString * out, const char * source, token * text, lin
 				print_const(" ");
 				print(a->key);
 				print_const("=\"");
-				print(a->value);
+				mmd_print_string_html(out, a->value, false, false);
 				print_const("\"");
 				free(width);
 				width = NULL;
@@ -421,7 +421,7 @@ void mmd_export_image_html(DString * out, const char * source, token * text, lin
 				print_const(" ");
 				print(a->key);
 				print_const("=\"");
-				print(a->value);
+				mmd_print_string_html(out, a->value, false, false);
 				print_const("\"");
 				free(height);
 				height = NULL;
@@ -433,7 +433,7 @@ void mmd_export_image_html(DString * out, const char * source, token * text, lin
 			print_const(" ");
 			print(a->key);
 			print_const("=\"");
-			print(a->value);
+			mmd_print_string_html(out, a->value, false, false);
 			print_const("\"");
 		}
 
@@ -444,11 +444,15 @@ void mmd_export_image_html(DString * out, const char * source, token * text, lin
 		print_const(" style=\"");
 
 		if (height) {
-			printf("height:%s;", height);
+			print_const("height:");
+			mmd_print_string_html(out, height, false, false);
+			print_const(";");
 		}
 
 		if (width) {
-			printf("width:%s;", width);
+			print_const("width:");
+			mmd_print_string_html(out, width, false, false);
+			print_const(";");
 		}
 
 		print_const("\"");
@@ -683,7 +687,9 @@ void mmd_export_token_html(DString * out, const char * source, token * t, scratc
 				}
 
 				print_const("<pre><code");
-				printf(" class=\"%s\"", temp_char);
+				print_const(" class=\"");
+				mmd_print_string_html(out, temp_char, false, false);
+				print_const("\"");
 				free(temp_char);
 			} else {
 				print_const("<pre><code");
